@@ -16,7 +16,7 @@ import (
 
 func init() {
 	streams["PROTO"] = streamProto
-	streamRules["PROTO"] = "protobuf codecs: Marshal/Unmarshal of BlobTx, IndexWrapper and Blob on valid values from the repo's constructors (byte-exact against the modelled encoder) + a malformed stream (bit flips, truncations, duplicated/reordered/unknown fields, wrong wire types, groups, over-long varints, invalid UTF-8, random bytes); blob acceptance grid share version 0..300 x signer {nil, empty, 1, 19, 20, 21, 22 bytes} x data {0,1,5 bytes} x namespace classes through NewBlob and NewBlobFromProto; JSON round trips (Go-side only); oracles for C19; non-trivial = distinct op"
+	streamRules["PROTO"] = "protobuf codecs: Marshal/Unmarshal of BlobTx, IndexWrapper and Blob on valid values from the repo's constructors (byte-exact against the modelled encoder) + a malformed stream (bit flips, truncations, duplicated/reordered/unknown fields, wrong wire types, groups, over-long varints, invalid UTF-8, random bytes); blob acceptance grid share version 0..300 x signer {nil, empty, 1, 19, 20, 21, 22 bytes} x data {0,1,5 bytes} x namespace classes through NewBlob and NewBlobFromProto; JSON round trips (Go-side only); oracles for C19; non-trivial = distinct op Added: decoders must not depend on history, nested encodings, hand-written JSON documents (explicit empty / null / absent, null / {} / []), JSON round trip of every boundary namespace."
 }
 
 func safeMarshalJSON(b *share.Blob) (out []byte, err error) {
